@@ -101,6 +101,32 @@ impl Engine for FaultEngine {
         knobs.insert("rate".into(), *c.pick(&[10i64, 40, 120]));
         knobs.insert("read_faults".into(), c.chance(1, 3) as i64);
         let _ = property;
+        // "burst" family (own tape): one shard receives more entries than fit into one journal
+        // transaction (1024), so a drain is written in several batches; the fault lands in one of
+        // them, the untouched rest of the drain must still reach the device once it works again
+        let mut b = Tape::fresh(mix(seed, 0xB025));
+        let (sim, store, keys, ops) = if b.chance(1, 50) {
+            let n = 1040 + b.below(if thorough { 1300 } else { 200 }) as usize;
+            let keys: Vec<Vec<u8>> = (0..n).map(|i| format!("bk{i:05}").into_bytes()).collect();
+            let mut ops: Vec<Op> = (0..n)
+                .map(|key| Op::Insert { key, val: Val { len: 12 + b.below(30) as usize, kind: ValKind::Plain }, ts: Ts::Auto, ttl: 0, bytes: false })
+                .collect();
+            ops.push(Op::Flush);
+            ops.push(Op::Get { key: b.below(n as u32) as usize, bytes: false });
+            ops.push(Op::Flush);
+            for _ in 0..6 {
+                ops.push(Op::Delete { key: b.below(n as u32) as usize, ts: Ts::Auto });
+            }
+            ops.push(Op::Flush);
+            knobs.insert("mode".into(), *b.pick(&[1i64, 1, 2, 3]));
+            knobs.insert("points".into(), if thorough { 16 } else { 4 });
+            knobs.insert("burst".into(), 1);
+            let sim = SimConfig { shards: 1, workers: 1, max_steps: 3_000_000, ..sim };
+            let store = StoreCfg { data_blocks: 2700, hash_bits: 8, ..store };
+            (sim, store, keys, ops)
+        } else {
+            (sim, store, keys, ops)
+        };
         Scenario {
             engine: "fault".into(),
             property: property.into(),
